@@ -85,6 +85,16 @@ func monitorUCI(sc *UCIScenario, out *UCIOutcome) (vs []Violation, windows []*go
 		}
 	}
 
+	// After an injected write error the GUI has lost bytes: the accounting
+	// clauses cannot be judged any more (the statement is about command timing,
+	// not about a broken pipe). What still must hold is that the driver neither
+	// crashes nor hangs and that quit / end of input terminate it with all its
+	// goroutines - checked below on the same history.
+	for _, e := range out.Events {
+		if e.Kind == "WRITE-ERROR" {
+			return monitorAfterWriteFault(out)
+		}
+	}
 	game := ref.NewGame(ref.MustFEN(ref.StartFEN))
 	var cur *goWindow
 	owed := false
@@ -333,4 +343,28 @@ func parseGoClock(line string) goClock {
 		}
 	}
 	return c
+}
+
+// monitorAfterWriteFault keeps only the clauses that survive a lost write:
+// no deadlock, termination on quit / end of input, no goroutine left.
+func monitorAfterWriteFault(out *UCIOutcome) (vs []Violation, windows []*goWindow) {
+	add := func(kind, detail string, seq int) {
+		vs = append(vs, Violation{Property: "C13", Kind: kind, Detail: detail + " (after an injected write error)", Step: seq})
+	}
+	for _, e := range out.Events {
+		switch e.Kind {
+		case "LEAK":
+			add("goroutine-leak", fmt.Sprintf("%d goroutine(s) of the driver still alive after Run returned: %s", e.N, e.Data), e.Seq)
+		case "QUIT-IGNORED":
+			add("no-termination-on-quit", "quit was sent and every line the engine wrote was read, but Run had not returned while the input stayed open", e.Seq)
+		case "DRAIN-GIVEUP":
+			return nil, nil
+		}
+		// (a STUCK event before the end of input only means that the GUI model
+		// waits for an answer the fault swallowed: the driver itself is idle)
+	}
+	if !out.Done && len(vs) == 0 {
+		add("no-termination", "Run did not return after end of input with every write granted", len(out.Events))
+	}
+	return vs, nil
 }
